@@ -6,7 +6,10 @@ import (
 	"strconv"
 	"strings"
 
+	lua "github.com/yuin/gopher-lua"
+
 	"verif/internal/fw"
+	"verif/internal/gl"
 	"verif/internal/refl/lpat"
 )
 
@@ -182,6 +185,32 @@ func runHostile(c *fw.Ctx, e *env) {
 		}
 		c.End(false, "")
 	}
+	// patterns whose captures nest n deep: the pattern compiler must not
+	// recurse without bound (a Go stack overflow cannot be caught)
+	deep := []int{1000, 100000, 1100000}
+	if !c.Quick() {
+		deep = append(deep, 4000000)
+	}
+	for _, n := range deep {
+		for vi, mk := range []func(int) string{
+			func(n int) string { return strings.Repeat("(", n) + "a" + strings.Repeat(")", n) },
+			func(n int) string { return strings.Repeat("(", n) },
+			func(n int) string { return strings.Repeat("(a", n) },
+			func(n int) string { return strings.Repeat("(", n) + strings.Repeat(")", n) },
+			func(n int) string { return strings.Repeat("()", n) },
+		} {
+			idx++
+			if !c.Mine(idx) {
+				continue
+			}
+			hc := &Case{Fn: "hostile", Call: "deep-captures", Variant: vi, Size: n}
+			c.Begin(hc)
+			runDeepPattern(c, e, mk(n), hc)
+			c.Count("deep_capture_patterns", 1)
+			c.Count(fmt.Sprintf("deep_capture_nesting_%d", n), 1)
+			c.End(true, fmt.Sprintf("deepcap/%d/%d", vi, n))
+		}
+	}
 	for _, n := range []int{9, 31, 32, 33, 40} {
 		idx++
 		if !c.Mine(idx) {
@@ -198,6 +227,29 @@ func runHostile(c *fw.Ctx, e *env) {
 			r := runCase(c, e, cs)
 			c.Count("many_captures_calls", 1)
 			c.End(r.matched, fmt.Sprintf("caps/%s/%d", fn, n))
+		}
+	}
+}
+
+// runDeepPattern: find/match/gmatch/gsub with the pattern on a short subject.
+// Any Lua-level outcome is accepted (the pattern has more than 32 captures);
+// a Go panic or run-time fault is a violation, a dead worker is reported by
+// the driver.
+func runDeepPattern(c *fw.Ctx, e *env, pat string, hc *Case) {
+	pv, sv := lua.LString(pat), lua.LString("aaaa")
+	for _, f := range []struct {
+		name string
+		fn   lua.LValue
+		args []lua.LValue
+	}{{"find", e.find, []lua.LValue{sv, pv}}, {"match", e.match, []lua.LValue{sv, pv}}, {"gmatch", e.gmatch, []lua.LValue{sv, pv}}, {"gsub", e.gsub, []lua.LValue{sv, pv, lua.LString("x")}}} {
+		_, o := gl.Call(e.L, f.fn, f.args...)
+		switch {
+		case o.GoPanic != nil:
+			c.Violation(fmt.Sprintf("string.%s with %d nested captures: Go panic: %s", f.name, hc.Size, fw.Short(o.PanicStr, 200)), hc)
+		case o.Err != nil && goRuntimeText(o.Err.Error()):
+			c.Violation(fmt.Sprintf("string.%s with %d nested captures: Go run-time fault surfaced: %s", f.name, hc.Size, fw.Short(o.Err.Error(), 200)), hc)
+		case o.Err != nil:
+			c.Count("deep_capture_lua_errors", 1)
 		}
 	}
 }
